@@ -28,9 +28,11 @@ TIERS = {
     "quick": {"shards": 8, "cases": 750, "timeout": 300},
     "thorough": {"shards": 16, "cases": 15000, "timeout": 3000},
 }
-FLOORS = {"quick": {"distinct_nontrivial": 1500, "values_read_back": 10000, "multi_line_outputs": 3000,
+FLOORS = {"quick": {"results_read_by_lines_after_their_whole_text_was_taken": 1400,
+                    "distinct_nontrivial": 1500, "values_read_back": 10000, "multi_line_outputs": 3000,
                     "wrapped_simple_lists": 1000, "one_line_containers_near_limit": 300, "python_mode_int_keys": 200},
-          "thorough": {"distinct_nontrivial": 60000, "values_read_back": 400000, "multi_line_outputs": 120000,
+          "thorough": {"results_read_by_lines_after_their_whole_text_was_taken": 5600,
+                       "distinct_nontrivial": 60000, "values_read_back": 400000, "multi_line_outputs": 120000,
                        "wrapped_simple_lists": 40000, "one_line_containers_near_limit": 12000,
                        "python_mode_int_keys": 8000}}
 LEVEL_TEXT = ("Runtime exploration with a round-trip oracle (print with the real pretty-printer, read back with the "
@@ -39,7 +41,8 @@ LEVEL_TEXT = ("Runtime exploration with a round-trip oracle (print with the real
 LEVEL_NOTE = "trusts json.loads and ast.literal_eval; depth <= 5, containers <= 120 elements"
 TECHNIQUE = "runtime monitoring: print/parse round-trip oracle steered to layout thresholds"
 
-CHARS = "abc xyzé,:[]{}中 '\U0001F600\U0001D4B3"
+# (U+2028 / U+2029 separate lines for str.splitlines, but are ordinary characters of a JSON or Python string)
+CHARS = "abc xyzé,:[]{}中 '\U0001F600\U0001D4B3\u2028\u2029"
 
 
 def gen_str(rng, n=None):
@@ -266,6 +269,19 @@ def judge(ctx, obj, jm, case):
         ctx.count("results_used_as_text_after_partial_iteration")
         if whole != txt:
             ctx.violation("text-after-partial-iteration-differs", {"got": whole[:150], "expected": txt[:150]}, case)
+    if len(txt) % 2 == 1:
+        # one result object is used as a whole text first and read line by line afterwards
+        try:
+            both = pp(obj, no_color=True)
+            first = str(both)
+            n_chars = len(both)
+            then_lines = [str(l) for l in both]
+        except Exception as err:
+            ctx.violation("printing-raises", {"type": type(err).__name__, "msg": str(err)[:150]}, case)
+            return
+        ctx.count("results_read_by_lines_after_their_whole_text_was_taken")
+        if first != txt or n_chars != len(txt) or then_lines != lines:
+            ctx.violation("lines-read-after-the-whole-text-differ", {"lines": then_lines[:4], "expected": lines[:4]}, case)
     if len(lines) > 1 and len(txt) % 3 == 1:
         # the line iteration of a no-colour result is suspended, the same printer renders the value in colours,
         # then the iteration goes on
